@@ -187,11 +187,11 @@ func (p *Prog) collectFuncs() {
 			case *ssa.Function:
 				walk(m)
 			case *ssa.Type:
-				for _, t := range []types.Type{m.Type(), types.NewPointer(m.Type())} {
-					ms := p.SSA.MethodSets.MethodSet(t)
-					for i := 0; i < ms.Len(); i++ {
-						f := p.SSA.MethodValue(ms.At(i))
-						if f != nil && f.Synthetic == "" {
+				// declared methods (this also reaches the generic bodies of methods of
+				// generic types, which have no method-set entry)
+				if named, ok := m.Type().(*types.Named); ok {
+					for i := 0; i < named.NumMethods(); i++ {
+						if f := p.SSA.FuncValue(named.Method(i)); f != nil && f.Synthetic == "" {
 							walk(f)
 						}
 					}
